@@ -7,6 +7,7 @@
 -/
 import Stfs.Proofs.AppendOnly
 import Stfs.Model.Trig
+import Stfs.Gen.Fingerprints
 namespace Stfs.C16
 open Stfs
 
@@ -64,5 +65,15 @@ theorem F19_witness :
     let w0 : World := { tape := s.w.tape }
     ((initFs {} (env1 6) (n!"/") 511 w0).1.tape.length > w0.tape.length) = true := by
   decide
+
+-- MIRRORS-BEGIN (maintained by bin/update-mirrors)
+/-- The parts of the model this file's theorems are about were written by hand against these
+    versions of the functions they mirror (fingerprint of each function's comment-free source,
+    regenerated on every run).  When one of them changes, this obligation fails: the change has
+    to be confirmed harmless by the correspondence, or shows up as its failing input. -/
+theorem model_mirrors_source :
+    [(n!"fs.STFS.Initialize"), (n!"persisters.MetadataPersister.GetRootPath"), (n!"persisters.MetadataPersister.PurgeAllHeaders")].map Gen.fingerprintOf =
+    [some 1449536689134317052, some 1811262850778349076, some 1041557785464941302] := by decide
+-- MIRRORS-END
 
 end Stfs.C16
